@@ -586,3 +586,22 @@ package notify
 //@ func (NotifyReason).shouldNotify
 //@   props C04
 //@   ensures [everything-but-none] result == (r != ReasonDoNotNotify)
+
+// ---- C20: the wrappers around the retry loop and around an integration hand through, unchanged, what the wrapped
+// step decided: the batch, the error (a failed delivery is a failed stage - never turned into success by the metrics
+// and tracing code around it) and the recoverable flag.
+//@ func (RetryStage).Exec
+//@   props C20 C05 C04
+//@   nosafe
+//@   at call RetryStage).exec assert [the-whole-batch-goes-to-the-retry-loop-once] arg3 == alerts && arg2 == l && count("RetryStage).exec") == 0
+//@   ensures [the-retry-loop_s-verdict-is-the-stage_s] count("RetryStage).exec") == 1 && result1 == ret1("RetryStage).exec") && result2 == ret2("RetryStage).exec") && result0 == ret("RetryStage).exec")
+//@   ensures [failures-are-counted] (ret2("RetryStage).exec") != nil) == called("Span).RecordError")
+//@   noeffect RetryStage).exec
+
+//@ func (*Integration).Notify
+//@   props C20
+//@   nosafe
+//@   after call Tracer).Start assume res0 != nil && res1 != nil
+//@   at call Notifier).Notify assert [the-whole-batch-goes-to-the-notifier-once] arg2 == alerts && arg0 == i.notifier && count("Notifier).Notify") == 0
+//@   ensures [the-notifier_s-verdict-is-the-integration_s] count("Notifier).Notify") == 1 && result0 == ret("Notifier).Notify") && result1 == ret1("Notifier).Notify")
+//@   noeffect Notifier).Notify
